@@ -8,6 +8,11 @@ package props
 // nested loop, with and without residual selection). Oracle: nested-loop evaluation in Go.
 
 import (
+	"github.com/ryogrid/SamehadaDB/lib/storage/tuple"
+	"github.com/ryogrid/SamehadaDB/lib/storage/page"
+	"github.com/ryogrid/SamehadaDB/lib/materialization"
+	"github.com/ryogrid/SamehadaDB/lib/common"
+	"bytes"
 	"math"
 	"encoding/json"
 	"fmt"
@@ -529,6 +534,10 @@ func c11Run(c *core.Ctx) {
 			}
 		}
 	}
+	// the temporary page of the hash join, for every tuple size: filled until it refuses
+	if c.Shard == 0 {
+		c11TmpPages(res)
+	}
 	// build sides larger than one temporary page
 	res.Bound["large_build_sides"] = fmt.Sprintf("%v x statistics {never-updated, current} x %d queries, every plan", c11WideNames, len(c11WideQueries("")))
 	for _, name := range c11WideNames {
@@ -674,8 +683,13 @@ func c11Replay(raw json.RawMessage) (string, bool) {
 		Stats   string           `json:"statistics"`
 		Choices string           `json:"plan_choices"`
 		Wide    string           `json:"wide"`
+		TmpSize int              `json:"tmp_page_tuple_size"`
 	}
 	json.Unmarshal(raw, &rp)
+	if rp.TmpSize > 0 {
+		clause, detail, n := c11TmpPageSize(rp.TmpSize)
+		return fmt.Sprintf("temporary page filled with tuples of %d bytes: %d accepted; %s %s", rp.TmpSize, n, clause, detail), clause != ""
+	}
 	if rp.Wide != "" {
 		for _, q := range c11WideQueries(rp.Wide) {
 			if q.SQL() != rp.SQL {
@@ -729,4 +743,71 @@ func c11Replay(raw json.RawMessage) (string, bool) {
 		return sb.String(), bad
 	}
 	return "query not found among the enumerated ones: " + rp.SQL, false
+}
+
+// c11TmpPages drives materialization.TmpTuplePage (where the hash join keeps its build side) directly: for
+// every tuple size 1..600 a fresh page is filled until Insert refuses; after every accepted tuple all tuples
+// stored so far are read back through the page's own Get and compared, and the page header must be intact.
+// (Which row of a build side lands on the last bytes of a page depends on row width and count: at SQL level
+// only a few widths are driven, here all of them.)
+func c11TmpPages(res *core.Result) {
+	res.Bound["tmp_tuple_page"] = "every tuple size 1..600, page filled until Insert refuses, full read-back after every insert"
+	total := int64(0)
+	for size := 1; size <= 600; size++ {
+		clause, detail, n := c11TmpPageSize(size)
+		total += n
+		if clause != "" {
+			res.Outcome("VIOLATION:tmp-page/" + clause)
+			res.Violate(&core.Violation{Property: "C11", Signature: "join/tmp-page/" + clause, Detail: detail,
+				Replay: map[string]any{"tmp_page_tuple_size": size}})
+			return
+		}
+	}
+	res.PerOp["tmp-page-inserts"] += total
+	res.Outcome("tmp-page:ok")
+}
+
+func c11TmpPageSize(size int) (clause, detail string, n int64) {
+	f := guard(func() {
+		var arr [common.PageSize]byte
+		pg := materialization.CastPageAsTmpTuplePage(page.New(types.PageID(77), false, &arr))
+		pg.Init(types.PageID(77), common.PageSize)
+		type stored struct {
+			off  uint32
+			data []byte
+		}
+		var all []stored
+		for k := 0; k < 5000; k++ {
+			data := make([]byte, size)
+			for i := range data {
+				data[i] = byte(1 + (k*7+i)%250)
+			}
+			var tt materialization.TmpTuple
+			if !pg.Insert(tuple.NewTuple(nil, uint32(size), data), &tt) {
+				break
+			}
+			n++
+			all = append(all, stored{tt.GetOffset(), data})
+			if pg.GetTablePageID() != types.PageID(77) {
+				clause, detail = "header-overwritten", fmt.Sprintf("tuple size %d: after insert %d the page id field of the temporary page reads %d", size, k+1, pg.GetTablePageID())
+				return
+			}
+			if fp := pg.GetFreeSpacePointer(); fp < 20 || fp != tt.GetOffset() {
+				clause, detail = "free-space-pointer", fmt.Sprintf("tuple size %d: after insert %d the free-space pointer is %d, the tuple was stored at %d (the header ends at 20)", size, k+1, fp, tt.GetOffset())
+				return
+			}
+			for j, st := range all {
+				var back tuple.Tuple
+				pg.Get(&back, st.off)
+				if int(back.Size()) != size || !bytes.Equal(back.Data()[:back.Size()], st.data) {
+					clause, detail = "stored-tuple-damaged", fmt.Sprintf("tuple size %d: after insert %d tuple %d (offset %d) reads back with size %d / other bytes", size, k+1, j+1, st.off, back.Size())
+					return
+				}
+			}
+		}
+	})
+	if f != nil {
+		clause, detail = "panic@"+f.Where, fmt.Sprintf("tuple size %d: %s", size, f.String())
+	}
+	return
 }
